@@ -1,12 +1,1131 @@
 package main
 
-// tryReplay attempts to replay a failed obligation's model against the real
-// code (go test -overlay). Returns "" when no driver applies.
+import (
+	"bytes"
+	"context"
+	"encoding/json"
+	"fmt"
+	"go/ast"
+	"go/constant"
+	"go/printer"
+	"go/token"
+	"go/types"
+	"os"
+	"os/exec"
+	"path/filepath"
+	"sort"
+	"strconv"
+	"strings"
+	"time"
+
+	"golang.org/x/tools/go/ssa"
+)
+
+// ---------------------------------------------------------------------------
+// Replay: decode the solver's model into Go values, generate an in-package
+// test, run it against the real code with `go test -overlay` (nothing is
+// written to /repo) and report whether the violation reproduces.
+// ---------------------------------------------------------------------------
+
+type replayer struct {
+	run     *Run
+	vc      *VC
+	o       *Obl
+	pkg     *types.Package
+	pinned  map[Term]string // term -> value (asserted in later rounds)
+	objs    map[string]string // "T@ref" -> variable name
+	decls   []string          // variable declarations (in order)
+	inits   []string          // field initialisations
+	imports map[string]string // path -> name
+	nvar    int
+	fail    string
+	strVals map[string]string // model element -> Go string literal
+	strN    int
+}
+
 func (r *Run) tryReplay(o *Obl, rep map[string]interface{}) string {
+	if o.vc == nil || o.Status != "failed" || !strings.Contains(o.Model, "sat") {
+		return ""
+	}
+	vc := o.vc
+	p := pkgOf(vc.fn)
+	if p == nil {
+		return ""
+	}
+	rp := &replayer{run: r, vc: vc, o: o, pkg: p.Pkg, pinned: map[Term]string{}, objs: map[string]string{}, imports: map[string]string{}, strVals: map[string]string{}}
+	var src, oracle string
+	if vc.lemma != nil {
+		src, oracle = rp.buildLemma()
+	} else {
+		src, oracle = rp.build()
+	}
+	if src == "" {
+		rep["replay"] = "no replay driver: " + rp.fail
+		return ""
+	}
+	rep["replay_test"] = src
+	rep["replay_oracle"] = oracle
+	out, err := runReplayTest(r.eng.repo, p.Pkg.Path(), src)
+	rep["replay_output"] = trunc(out, 4000)
+	if err != nil {
+		rep["replay_error"] = err.Error()
+	}
+	rep["replay_cmd"] = "go test -overlay <ov.json> -vet=off -count=1 -timeout 60s -run TestGovcReplay ./" + relPkgDir(p.Pkg.Path())
+	switch oracle {
+	case "panic":
+		if strings.Contains(out, "REPLAY-PANIC:") {
+			return "replayed=confirmed"
+		}
+	case "post":
+		if strings.Contains(out, "REPLAY-POST: false") {
+			return "replayed=confirmed"
+		}
+	}
+	rep["replay"] = "model did not reproduce on the real code (spurious model or inputs outside the driver's reach)"
 	return ""
 }
 
+func relPkgDir(path string) string {
+	return strings.TrimPrefix(strings.TrimPrefix(path, modulePath), "/")
+}
+
+func runReplayTest(repo, pkgPath, src string) (string, error) {
+	dir, err := os.MkdirTemp("", "govc-replay-")
+	if err != nil {
+		return "", err
+	}
+	defer os.RemoveAll(dir)
+	testFile := filepath.Join(dir, "zz_govc_replay_test.go")
+	if err := os.WriteFile(testFile, []byte(src), 0o644); err != nil {
+		return "", err
+	}
+	rel := relPkgDir(pkgPath)
+	target := filepath.Join(repo, rel, "zz_govc_replay_test.go")
+	ov, _ := json.Marshal(map[string]interface{}{"Replace": map[string]string{target: testFile}})
+	ovFile := filepath.Join(dir, "ov.json")
+	os.WriteFile(ovFile, ov, 0o644)
+	ctx, cancel := context.WithTimeout(context.Background(), 180*time.Second)
+	defer cancel()
+	cmd := exec.CommandContext(ctx, "go", "test", "-overlay", ovFile, "-vet=off", "-count=1", "-timeout", "60s", "-run", "TestGovcReplay", "-v", "./"+rel)
+	cmd.Dir = repo
+	cmd.Env = cleanEnv()
+	var out bytes.Buffer
+	cmd.Stdout = &out
+	cmd.Stderr = &out
+	err = cmd.Run()
+	return out.String(), err
+}
+
+// replayFromFile re-runs a recorded replay test.
 func replayFromFile(repo, file string) int {
-	println("replay: no driver recorded in", file)
+	data, err := os.ReadFile(file)
+	if err != nil {
+		fmt.Println("cannot read", file, err)
+		return 2
+	}
+	var rep map[string]interface{}
+	if err := json.Unmarshal(data, &rep); err != nil {
+		fmt.Println("cannot parse", file, err)
+		return 2
+	}
+	src, _ := rep["replay_test"].(string)
+	fn, _ := rep["function"].(string)
+	if src == "" {
+		fmt.Printf("obligation %v failed; the verifier gave no replayable input (%v)\n%v\n", rep["obligation"], rep["replay"], rep["solver_output"])
+		return 1
+	}
+	pkgPath := ""
+	for _, l := range strings.Split(src, "\n") {
+		if strings.HasPrefix(l, "// package-path: ") {
+			pkgPath = strings.TrimPrefix(l, "// package-path: ")
+		}
+	}
+	out, _ := runReplayTest(repo, pkgPath, src)
+	fmt.Println(out)
+	_ = fn
+	if strings.Contains(out, "REPLAY-PANIC:") || strings.Contains(out, "REPLAY-POST: false") {
+		fmt.Printf("VIOLATION property=%v replay=%s obligation=%v replayed=confirmed\n", rep["property"], file, rep["obligation"])
+		return 1
+	}
+	fmt.Println("replay did not reproduce the violation on the current tree")
 	return 0
+}
+
+// ------------------------------------------------------------------ model queries
+
+// values evaluates terms in the model of the failed obligation (previously
+// obtained values are pinned so that successive rounds see one model).
+func (rp *replayer) values(terms []Term) (map[Term]string, bool) {
+	vc, o := rp.vc, rp.o
+	var b strings.Builder
+	b.WriteString(vc.scriptPrefix())
+	for i := 0; i < o.CmdIdx && i < len(vc.cmds); i++ {
+		b.WriteString(vc.cmds[i])
+		b.WriteByte('\n')
+	}
+	fmt.Fprintf(&b, "(assert %s)\n", o.Goal)
+	var pk []string
+	for t := range rp.pinned {
+		pk = append(pk, t)
+	}
+	sort.Strings(pk)
+	for _, t := range pk {
+		fmt.Fprintf(&b, "(assert (= %s %s))\n", t, rp.pinned[t])
+	}
+	b.WriteString("(check-sat)\n")
+	for i, t := range terms {
+		fmt.Fprintf(&b, "(echo \"VAL %d\")\n(get-value (%s))\n", i, t)
+	}
+	dir, _ := os.MkdirTemp("", "govc-val-")
+	defer os.RemoveAll(dir)
+	file := filepath.Join(dir, "q.smt2")
+	os.WriteFile(file, []byte(b.String()), 0o644)
+	out, _ := runSolver(context.Background(), solvers[0], file, 20)
+	if os.Getenv("GOVC_DEBUG_REPLAY") != "" {
+		fmt.Fprintln(os.Stderr, "REPLAY QUERY", terms, "=>", trunc(out, 600))
+	}
+	lines := strings.Split(out, "\n")
+	if len(lines) == 0 || strings.TrimSpace(lines[0]) != "sat" {
+		return nil, false
+	}
+	res := map[Term]string{}
+	cur := -1
+	var acc strings.Builder
+	flush := func() {
+		if cur >= 0 {
+			s := strings.TrimSpace(acc.String())
+			// ((term value))
+			s = strings.TrimPrefix(s, "((")
+			s = strings.TrimSuffix(s, "))")
+			t := terms[cur]
+			if strings.HasPrefix(s, t) {
+				res[t] = strings.TrimSpace(s[len(t):])
+			} else if i := strings.LastIndex(s, " "); i >= 0 {
+				// z3 may normalise the term; take the last s-expression
+				res[t] = lastSexp(s)
+			}
+		}
+		acc.Reset()
+	}
+	for _, l := range lines[1:] {
+		tl := strings.TrimSpace(l)
+		if strings.HasPrefix(tl, "VAL ") || strings.HasPrefix(tl, "\"VAL ") {
+			flush()
+			fmt.Sscanf(strings.Trim(tl, "\""), "VAL %d", &cur)
+			continue
+		}
+		acc.WriteString(l)
+		acc.WriteByte(' ')
+	}
+	flush()
+	return res, true
+}
+
+func lastSexp(s string) string {
+	s = strings.TrimSpace(s)
+	if strings.HasSuffix(s, ")") {
+		depth := 0
+		for i := len(s) - 1; i >= 0; i-- {
+			switch s[i] {
+			case ')':
+				depth++
+			case '(':
+				depth--
+				if depth == 0 {
+					return s[i:]
+				}
+			}
+		}
+	}
+	if i := strings.LastIndex(s, " "); i >= 0 {
+		return s[i+1:]
+	}
+	return s
+}
+
+func parseSMTInt(s string) (int64, bool) {
+	s = strings.TrimSpace(s)
+	neg := false
+	if strings.HasPrefix(s, "(- ") {
+		neg = true
+		s = strings.TrimSuffix(strings.TrimPrefix(s, "(- "), ")")
+	}
+	n, err := strconv.ParseInt(strings.TrimSpace(s), 10, 64)
+	if err != nil {
+		// may exceed int64 (uint64)
+		u, err2 := strconv.ParseUint(strings.TrimSpace(s), 10, 64)
+		if err2 != nil {
+			return 0, false
+		}
+		return int64(u), !neg
+	}
+	if neg {
+		n = -n
+	}
+	return n, true
+}
+
+func (rp *replayer) one(t Term) (string, bool) {
+	m, ok := rp.values([]Term{t})
+	if !ok {
+		return "", false
+	}
+	v, ok := m[t]
+	if ok && !strings.Contains(v, "!val!") {
+		rp.pinned[t] = v
+	}
+	return v, ok
+}
+
+func (rp *replayer) oneInt(t Term) (int64, bool) {
+	v, ok := rp.one(t)
+	if !ok {
+		return 0, false
+	}
+	return parseSMTInt(v)
+}
+
+// ------------------------------------------------------------------ value construction
+
+func (rp *replayer) qualifier(p *types.Package) string {
+	if p == rp.pkg {
+		return ""
+	}
+	if n, ok := rp.imports[p.Path()]; ok {
+		return n
+	}
+	name := p.Name()
+	for _, n := range rp.imports {
+		if n == name {
+			name = fmt.Sprintf("%s%d", p.Name(), len(rp.imports))
+		}
+	}
+	rp.imports[p.Path()] = name
+	return name
+}
+
+func (rp *replayer) typeStr(t types.Type) string {
+	return types.TypeString(t, rp.qualifier)
+}
+
+func (rp *replayer) newVar() string {
+	rp.nvar++
+	return fmt.Sprintf("v%d", rp.nvar)
+}
+
+func (rp *replayer) entryHeap(name string) (Term, bool) {
+	n := sanitize(name) + "@0"
+	return n, rp.vc.declared[n]
+}
+
+// goValue returns a Go expression for the value `term` of type t in the entry state.
+func (rp *replayer) goValue(term Term, t types.Type, depth int) (string, bool) {
+	if depth > 6 {
+		rp.fail = "object graph too deep"
+		return "", false
+	}
+	U := rp.vc.U
+	switch tt := t.Underlying().(type) {
+	case *types.Basic:
+		switch {
+		case tt.Info()&types.IsBoolean != 0:
+			v, ok := rp.one(term)
+			if !ok {
+				return "", false
+			}
+			return rp.typeStr(t) + "(" + v + ")", true
+		case tt.Info()&types.IsInteger != 0:
+			n, ok := rp.oneInt(term)
+			if !ok {
+				return "", false
+			}
+			if tt.Kind() == types.Uint64 || tt.Kind() == types.Uint || tt.Kind() == types.Uintptr {
+				return fmt.Sprintf("%s(%d)", rp.typeStr(t), uint64(n)), true
+			}
+			return fmt.Sprintf("%s(%d)", rp.typeStr(t), n), true
+		case tt.Info()&types.IsString != 0:
+			s, ok := rp.goString(term)
+			if !ok {
+				return "", false
+			}
+			return rp.typeStr(t) + "(" + s + ")", true
+		}
+		rp.fail = "unsupported basic type " + t.String()
+		return "", false
+	case *types.Pointer:
+		ref, ok := rp.oneInt(term)
+		if !ok {
+			return "", false
+		}
+		if ref == 0 {
+			return "nil", true
+		}
+		return rp.goObject(ref, tt.Elem(), depth)
+	case *types.Slice:
+		ln, ok := rp.oneInt(sx("slen", term))
+		if !ok {
+			return "", false
+		}
+		arr, _ := rp.oneInt(sx("sarr", term))
+		if arr == 0 {
+			return "nil", true
+		}
+		if ln > 2048 {
+			rp.fail = "slice too long for replay"
+			return "", false
+		}
+		hn, _ := U.elemHeapT(tt.Elem())
+		h, declared := rp.entryHeap(hn)
+		var elems []string
+		for i := int64(0); i < ln; i++ {
+			if !declared {
+				elems = append(elems, rp.zeroExpr(tt.Elem()))
+				continue
+			}
+			e, ok := rp.goValue(sel(sel(h, sx("sarr", term)), sx("+", sx("soff", term), num(i))), tt.Elem(), depth+1)
+			if !ok {
+				return "", false
+			}
+			elems = append(elems, e)
+		}
+		return rp.typeStr(t) + "{" + strings.Join(elems, ", ") + "}", true
+	case *types.Struct:
+		info := U.structInfo[U.sortOf(t)]
+		if info == nil {
+			rp.fail = "unknown struct sort"
+			return "", false
+		}
+		var fs []string
+		for i := 0; i < tt.NumFields(); i++ {
+			f := tt.Field(i)
+			if !f.Exported() && f.Pkg() != rp.pkg {
+				continue
+			}
+			if f.Name() == "_" {
+				continue
+			}
+			e, ok := rp.goValue(sx(info.Fields[i], term), f.Type(), depth+1)
+			if !ok {
+				return "", false
+			}
+			fs = append(fs, f.Name()+": "+e)
+		}
+		return rp.typeStr(t) + "{" + strings.Join(fs, ", ") + "}", true
+	case *types.Interface:
+		tag, ok := rp.oneInt(sx("itag", term))
+		if !ok {
+			return "", false
+		}
+		if tag == 0 {
+			return "nil", true
+		}
+		rp.fail = "non-nil interface value in the model"
+		return "", false
+	case *types.Map:
+		ref, ok := rp.oneInt(term)
+		if !ok {
+			return "", false
+		}
+		if ref == 0 {
+			return "nil", true
+		}
+		return rp.goMap(ref, t, tt, depth)
+	case *types.Array:
+		return rp.typeStr(t) + "{}", true
+	}
+	rp.fail = "unsupported type " + t.String()
+	return "", false
+}
+
+func (rp *replayer) zeroExpr(t types.Type) string {
+	switch t.Underlying().(type) {
+	case *types.Pointer, *types.Slice, *types.Map, *types.Interface, *types.Chan, *types.Signature:
+		return "nil"
+	case *types.Struct, *types.Array:
+		return rp.typeStr(t) + "{}"
+	case *types.Basic:
+		b := t.Underlying().(*types.Basic)
+		if b.Info()&types.IsString != 0 {
+			return rp.typeStr(t) + "(\"\")"
+		}
+		if b.Info()&types.IsBoolean != 0 {
+			return "false"
+		}
+	}
+	return rp.typeStr(t) + "(0)"
+}
+
+// goObject builds (once per ref) the object a pointer designates.
+func (rp *replayer) goObject(ref int64, elem types.Type, depth int) (string, bool) {
+	key := fmt.Sprintf("%s@%d", types.TypeString(elem, nil), ref)
+	if v, ok := rp.objs[key]; ok {
+		return v, true
+	}
+	U := rp.vc.U
+	v := rp.newVar()
+	rp.objs[key] = v
+	refT := num(ref)
+	if st, ok := elem.Underlying().(*types.Struct); ok {
+		rp.decls = append(rp.decls, fmt.Sprintf("%s := &%s{}", v, rp.typeStr(elem)))
+		if !rp.fillStruct(v, refT, elem, st, depth) {
+			return "", false
+		}
+		return v, true
+	}
+	// pointer to a non-struct cell
+	hn, _ := U.ptrHeapT(elem)
+	h, declared := rp.entryHeap(hn)
+	rp.decls = append(rp.decls, fmt.Sprintf("%s := new(%s)", v, rp.typeStr(elem)))
+	if declared {
+		e, ok := rp.goValue(sel(h, refT), elem, depth+1)
+		if !ok {
+			return "", false
+		}
+		rp.inits = append(rp.inits, fmt.Sprintf("*%s = %s", v, e))
+	}
+	return v, true
+}
+
+func (rp *replayer) fillStruct(v string, refT Term, T types.Type, st *types.Struct, depth int) bool {
+	U := rp.vc.U
+	for i := 0; i < st.NumFields(); i++ {
+		f := st.Field(i)
+		if f.Name() == "_" || (!f.Exported() && f.Pkg() != rp.pkg) {
+			continue
+		}
+		hn := fieldHeapName(T, i)
+		if fst, ok := f.Type().Underlying().(*types.Struct); ok {
+			// flattened at faddr
+			if n := namedOf(f.Type()); n != nil && n.Obj().Pkg() != nil && (n.Obj().Pkg().Path() == "sync" || n.Obj().Pkg().Path() == "time") {
+				continue
+			}
+			fa := sx("faddr", num(int64(U.fieldID(hn))), refT)
+			av, ok := rp.oneInt(fa)
+			if !ok {
+				continue // never touched by the function
+			}
+			if !rp.fillStruct(v+"."+f.Name(), num(av), f.Type(), fst, depth+1) {
+				return false
+			}
+			continue
+		}
+		h, declared := rp.entryHeap(hn)
+		if !declared {
+			continue // the function never reads this field: zero value is as good as any
+		}
+		switch f.Type().Underlying().(type) {
+		case *types.Chan, *types.Signature:
+			continue
+		}
+		e, ok := rp.goValue(sel(h, refT), f.Type(), depth+1)
+		if !ok {
+			return false
+		}
+		rp.inits = append(rp.inits, fmt.Sprintf("%s.%s = %s", v, f.Name(), e))
+	}
+	return true
+}
+
+// goString maps an abstract string value to a Go literal: a known constant if
+// the model equates it with one, otherwise a unique string of the model's length.
+func (rp *replayer) goString(term Term) (string, bool) {
+	U := rp.vc.U
+	terms := []Term{term, sx("strlen", term)}
+	var lits []string
+	for _, lit := range U.strOrder {
+		terms = append(terms, U.strConsts[lit])
+		lits = append(lits, lit)
+	}
+	m, ok := rp.values(terms)
+	if !ok {
+		return "", false
+	}
+	elem := m[term]
+	for i, lit := range lits {
+		if m[U.strConsts[lits[i]]] == elem {
+			rp.pinned[term] = U.strConsts[lits[i]]
+			return strconv.Quote(lit), true
+		}
+	}
+	if s, ok := rp.strVals[elem]; ok {
+		return s, true
+	}
+	n, _ := parseSMTInt(m[sx("strlen", term)])
+	rp.strN++
+	s := fmt.Sprintf("g%d", rp.strN)
+	for int64(len(s)) < n && len(s) < 256 {
+		s += "x"
+	}
+	if int64(len(s)) > n && n >= 0 {
+		// cannot honour a very short length and stay unique beyond a few values
+		alphabet := "abcdefghijklmnopqrstuvwxyz"
+		if n == 0 {
+			s = ""
+		} else {
+			s = strings.Repeat(string(alphabet[rp.strN%26]), int(n))
+		}
+	}
+	q := strconv.Quote(s)
+	rp.strVals[elem] = q
+	return q, true
+}
+
+// ------------------------------------------------------------------ test generation
+
+func (rp *replayer) build() (string, string) {
+	fn := rp.vc.fn
+	if fn.Parent() != nil || len(fn.FreeVars) > 0 {
+		rp.fail = "closure"
+		return "", ""
+	}
+	oracle := ""
+	switch rp.o.Kind {
+	case "bounds", "nil", "nilmap", "divzero", "typeassert", "makeslice", "panic":
+		oracle = "panic"
+	case "post":
+		oracle = "post"
+	default:
+		rp.fail = "no oracle for obligation kind " + rp.o.Kind
+		return "", ""
+	}
+	// top-level parameter terms: p.<name>!k constants; find them in decls
+	paramTerm := map[string]Term{}
+	for _, d := range rp.vc.decls {
+		if strings.HasPrefix(d, "(declare-const p.") {
+			f := strings.Fields(d)
+			name := f[1]
+			base := strings.TrimPrefix(name, "p.")
+			if i := strings.LastIndex(base, "!"); i >= 0 {
+				base = base[:i]
+			}
+			if _, dup := paramTerm[base]; !dup {
+				paramTerm[base] = name
+			}
+		}
+	}
+	var args []string
+	var recv string
+	for i, p := range fn.Params {
+		t, ok := paramTerm[sanitize(p.Name())]
+		if !ok {
+			rp.fail = "parameter term not found: " + p.Name()
+			return "", ""
+		}
+		e, ok := rp.goValue(t, p.Type(), 0)
+		if !ok {
+			if rp.fail == "" {
+				rp.fail = "cannot decode parameter " + p.Name()
+			}
+			return "", ""
+		}
+		name := p.Name()
+		if name == "" || name == "_" {
+			name = fmt.Sprintf("arg%d", i)
+		}
+		rp.inits = append(rp.inits, fmt.Sprintf("var %s %s = %s\n\t_ = %s", name, rp.typeStr(p.Type()), e, name))
+		if i == 0 && fn.Signature.Recv() != nil {
+			recv = name
+		} else {
+			args = append(args, name)
+		}
+	}
+	// globals of the package read by the function (entry values) -- only simple scalars
+	var globalSets []string
+	var gnames []string
+	for n := range rp.vc.known {
+		gnames = append(gnames, n)
+	}
+	sort.Strings(gnames)
+	for _, hn := range gnames {
+		if !strings.HasPrefix(hn, "G|"+rp.pkg.Path()+".") {
+			continue
+		}
+		gname := strings.TrimPrefix(hn, "G|"+rp.pkg.Path()+".")
+		obj, ok := rp.pkg.Scope().Lookup(gname).(*types.Var)
+		if !ok {
+			continue
+		}
+		if b, ok := obj.Type().Underlying().(*types.Basic); ok && b.Info()&(types.IsInteger|types.IsBoolean) != 0 {
+			h, declared := rp.entryHeap(hn)
+			if !declared {
+				continue
+			}
+			e, ok := rp.goValue(h, obj.Type(), 0)
+			if ok {
+				globalSets = append(globalSets, fmt.Sprintf("%s = %s", gname, e))
+			}
+		}
+	}
+	// call expression
+	sig := fn.Signature
+	var resNames []string
+	for i := 0; i < sig.Results().Len(); i++ {
+		resNames = append(resNames, fmt.Sprintf("r%d", i))
+	}
+	call := fn.Name() + "(" + strings.Join(args, ", ") + ")"
+	if sig.Variadic() && len(args) > 0 {
+		call = fn.Name() + "(" + strings.Join(args, ", ") + "...)"
+	}
+	if recv != "" {
+		call = recv + "." + call
+	}
+	var olds []string
+	postGo := ""
+	if oracle == "post" {
+		fc := rp.vc.eng.contractOf(fn)
+		var clause *Clause
+		var idx int
+		if _, err := fmt.Sscanf(rp.o.Name[strings.LastIndex(rp.o.Name, "/post#")+1:], "post#%d", &idx); err == nil && fc != nil && idx >= 1 && idx <= len(fc.Ensures) {
+			clause = fc.Ensures[idx-1]
+		}
+		if clause == nil {
+			rp.fail = "postcondition clause not found"
+			return "", ""
+		}
+		g := &goCompiler{rp: rp, fn: fn, resNames: resNames}
+		e, err := g.compile(clause.Expr, false)
+		if err != nil {
+			rp.fail = "postcondition not executable: " + err.Error()
+			return "", ""
+		}
+		postGo = e
+		olds = g.olds
+	}
+	var b strings.Builder
+	fmt.Fprintf(&b, "// Code generated by govc (replay of a verifier counterexample). DO NOT EDIT.\n// package-path: %s\n// obligation: %s\n", rp.pkg.Path(), rp.o.Name)
+	fmt.Fprintf(&b, "package %s\n\nimport (\n\t\"fmt\"\n\t\"testing\"\n", rp.pkg.Name())
+	var ips []string
+	for p := range rp.imports {
+		ips = append(ips, p)
+	}
+	sort.Strings(ips)
+	for _, p := range ips {
+		if p == "fmt" || p == "testing" {
+			continue
+		}
+		fmt.Fprintf(&b, "\t%s %q\n", rp.imports[p], p)
+	}
+	b.WriteString(")\n\nfunc govcIte[T any](c bool, a, b T) T {\n\tif c {\n\t\treturn a\n\t}\n\treturn b\n}\n\n")
+	b.WriteString("func TestGovcReplay(_ *testing.T) {\n")
+	for _, d := range rp.decls {
+		b.WriteString("\t" + d + "\n")
+	}
+	for _, s := range rp.inits {
+		b.WriteString("\t" + s + "\n")
+	}
+	for _, s := range globalSets {
+		b.WriteString("\t" + s + "\n")
+	}
+	b.WriteString("\tdefer func() {\n\t\tif r := recover(); r != nil {\n\t\t\tfmt.Println(\"REPLAY-PANIC:\", r)\n\t\t}\n\t}()\n")
+	for _, o := range olds {
+		b.WriteString("\t" + o + "\n")
+	}
+	if len(resNames) > 0 {
+		fmt.Fprintf(&b, "\t%s := %s\n", strings.Join(resNames, ", "), call)
+		for _, r := range resNames {
+			fmt.Fprintf(&b, "\t_ = %s\n", r)
+		}
+	} else {
+		fmt.Fprintf(&b, "\t%s\n", call)
+	}
+	if oracle == "post" {
+		fmt.Fprintf(&b, "\tfmt.Println(\"REPLAY-POST:\", %s)\n", postGo)
+	} else {
+		b.WriteString("\tfmt.Println(\"REPLAY-NOPANIC\")\n")
+	}
+	b.WriteString("}\n")
+	return b.String(), oracle
+}
+
+// goCompiler turns a (quantifier-free) contract expression into executable Go.
+type goCompiler struct {
+	rp       *replayer
+	fn       *ssa.Function
+	resNames []string
+	olds     []string
+	nold     int
+	subst    map[string]ast.Expr
+	allowCalls bool
+}
+
+func exprString(e ast.Expr) string {
+	var b bytes.Buffer
+	printer.Fprint(&b, token.NewFileSet(), e)
+	return b.String()
+}
+
+func (g *goCompiler) compile(e ast.Expr, inOld bool) (string, error) {
+	switch x := e.(type) {
+	case *ast.ParenExpr:
+		s, err := g.compile(x.X, inOld)
+		return "(" + s + ")", err
+	case *ast.BasicLit:
+		return x.Value, nil
+	case *ast.Ident:
+		if g.subst != nil {
+			if r, ok := g.subst[x.Name]; ok {
+				sv := g.subst
+				g.subst = nil
+				s, err := g.compile(r, inOld)
+				g.subst = sv
+				return "(" + s + ")", err
+			}
+		}
+		if x.Name == "result" && len(g.resNames) == 1 {
+			return g.resNames[0], nil
+		}
+		if strings.HasPrefix(x.Name, "result") {
+			if n, err := strconv.Atoi(x.Name[6:]); err == nil && n < len(g.resNames) {
+				return g.resNames[n], nil
+			}
+		}
+		sig := g.fn.Signature
+		for i := 0; i < sig.Results().Len(); i++ {
+			if sig.Results().At(i).Name() == x.Name && x.Name != "" {
+				return g.resNames[i], nil
+			}
+		}
+		return x.Name, nil
+	case *ast.SelectorExpr:
+		if id, ok := x.X.(*ast.Ident); ok {
+			// imported package?
+			env := &SpecEnv{fr: &Frame{vc: g.rp.vc}, pkg: pkgOf(g.fn), vars: map[string]*Val{}}
+			isParam := false
+			for _, p := range g.fn.Params {
+				if p.Name() == id.Name {
+					isParam = true
+				}
+			}
+			if g.subst != nil {
+				if _, ok := g.subst[id.Name]; ok {
+					isParam = true
+				}
+			}
+			if !isParam {
+				if p := env.importedPkg(id.Name); p != nil {
+					return g.rp.qualifier(p) + "." + x.Sel.Name, nil
+				}
+			}
+		}
+		s, err := g.compile(x.X, inOld)
+		return s + "." + x.Sel.Name, err
+	case *ast.StarExpr:
+		s, err := g.compile(x.X, inOld)
+		return "(*" + s + ")", err
+	case *ast.UnaryExpr:
+		s, err := g.compile(x.X, inOld)
+		return "(" + x.Op.String() + s + ")", err
+	case *ast.BinaryExpr:
+		a, err := g.compile(x.X, inOld)
+		if err != nil {
+			return "", err
+		}
+		b, err := g.compile(x.Y, inOld)
+		if err != nil {
+			return "", err
+		}
+		return "(" + a + " " + x.Op.String() + " " + b + ")", nil
+	case *ast.IndexExpr:
+		a, err := g.compile(x.X, inOld)
+		if err != nil {
+			return "", err
+		}
+		b, err := g.compile(x.Index, inOld)
+		return a + "[" + b + "]", err
+	case *ast.CallExpr:
+		id, ok := x.Fun.(*ast.Ident)
+		if !ok {
+			return "", fmt.Errorf("call %s", exprString(x.Fun))
+		}
+		switch id.Name {
+		case "imp":
+			a, err := g.compile(x.Args[0], inOld)
+			if err != nil {
+				return "", err
+			}
+			b, err := g.compile(x.Args[1], inOld)
+			return "(!(" + a + ") || (" + b + "))", err
+		case "iff":
+			a, err := g.compile(x.Args[0], inOld)
+			if err != nil {
+				return "", err
+			}
+			b, err := g.compile(x.Args[1], inOld)
+			return "((" + a + ") == (" + b + "))", err
+		case "ite":
+			c, err := g.compile(x.Args[0], inOld)
+			if err != nil {
+				return "", err
+			}
+			a, err := g.compile(x.Args[1], inOld)
+			if err != nil {
+				return "", err
+			}
+			b, err := g.compile(x.Args[2], inOld)
+			if err != nil {
+				return "", err
+			}
+			return "govcIte(" + c + ", " + a + ", " + b + ")", nil
+		case "len", "cap", "int":
+			a, err := g.compile(x.Args[0], inOld)
+			return id.Name + "(" + a + ")", err
+		case "old":
+			if inOld {
+				return g.compile(x.Args[0], true)
+			}
+			s, err := g.compile(x.Args[0], true)
+			if err != nil {
+				return "", err
+			}
+			g.nold++
+			name := fmt.Sprintf("old%d", g.nold)
+			g.olds = append(g.olds, fmt.Sprintf("%s := %s", name, s))
+			return name, nil
+		case "unchanged":
+			s, err := g.compile(x.Args[0], false)
+			if err != nil {
+				return "", err
+			}
+			so, err := g.compile(x.Args[0], true)
+			if err != nil {
+				return "", err
+			}
+			g.nold++
+			name := fmt.Sprintf("old%d", g.nold)
+			g.olds = append(g.olds, fmt.Sprintf("%s := %s", name, so))
+			return "(" + s + " == " + name + ")", nil
+		case "has":
+			m, err := g.compile(x.Args[0], inOld)
+			if err != nil {
+				return "", err
+			}
+			k, err := g.compile(x.Args[1], inOld)
+			return "func() bool { _, ok := (" + m + ")[" + k + "]; return ok }()", err
+		case "isconst":
+			a, err := g.compile(x.Args[0], inOld)
+			if err != nil {
+				return "", err
+			}
+			env := &SpecEnv{fr: &Frame{vc: g.rp.vc}, pkg: pkgOf(g.fn), vars: map[string]*Val{}}
+			t, err := env.resolveType(x.Args[1])
+			if err != nil {
+				return "", err
+			}
+			n := namedOf(t)
+			var alts []string
+			seen := map[string]bool{}
+			sc := n.Obj().Pkg().Scope()
+			for _, name := range sc.Names() {
+				k, ok := sc.Lookup(name).(*types.Const)
+				if !ok || !types.Identical(k.Type(), t) || k.Val().Kind() != constant.Int {
+					continue
+				}
+				v := k.Val().ExactString()
+				if seen[v] {
+					continue
+				}
+				seen[v] = true
+				alts = append(alts, fmt.Sprintf("int64(%s) == %s", a, v))
+			}
+			return "(" + strings.Join(alts, " || ") + ")", nil
+		}
+		if d := g.rp.vc.eng.findDefine(pkgOf(g.fn), id.Name); d != nil && len(d.Params) == len(x.Args) {
+			sv := g.subst
+			ns := map[string]ast.Expr{}
+			for i, p := range d.Params {
+				if sv != nil {
+					// substitute outer parameters inside the argument first
+					ns[p] = substAST(x.Args[i], sv)
+				} else {
+					ns[p] = x.Args[i]
+				}
+			}
+			g.subst = ns
+			s, err := g.compile(d.Expr, inOld)
+			g.subst = sv
+			return "(" + s + ")", err
+		}
+		if g.allowCalls {
+			var as []string
+			for _, a := range x.Args {
+				s, err := g.compile(a, inOld)
+				if err != nil {
+					return "", err
+				}
+				as = append(as, s)
+			}
+			return id.Name + "(" + strings.Join(as, ", ") + ")", nil
+		}
+		return "", fmt.Errorf("contract function %s is not executable", id.Name)
+	}
+	return "", fmt.Errorf("expression %T is not executable", e)
+}
+
+// substAST replaces identifiers by expressions (shallow copy of the tree).
+func substAST(e ast.Expr, m map[string]ast.Expr) ast.Expr {
+	switch x := e.(type) {
+	case *ast.Ident:
+		if r, ok := m[x.Name]; ok {
+			return r
+		}
+		return x
+	case *ast.ParenExpr:
+		return &ast.ParenExpr{X: substAST(x.X, m)}
+	case *ast.SelectorExpr:
+		return &ast.SelectorExpr{X: substAST(x.X, m), Sel: x.Sel}
+	case *ast.StarExpr:
+		return &ast.StarExpr{X: substAST(x.X, m)}
+	case *ast.UnaryExpr:
+		return &ast.UnaryExpr{Op: x.Op, X: substAST(x.X, m)}
+	case *ast.BinaryExpr:
+		return &ast.BinaryExpr{X: substAST(x.X, m), Op: x.Op, Y: substAST(x.Y, m)}
+	case *ast.IndexExpr:
+		return &ast.IndexExpr{X: substAST(x.X, m), Index: substAST(x.Index, m)}
+	case *ast.CallExpr:
+		n := &ast.CallExpr{Fun: x.Fun}
+		for _, a := range x.Args {
+			n.Args = append(n.Args, substAST(a, m))
+		}
+		return n
+	}
+	return e
+}
+
+
+// goMap builds a map input: candidate keys are the key terms the function itself uses
+// on maps of this type; keys it never looks at cannot influence the execution.
+func (rp *replayer) goMap(ref int64, t types.Type, mt *types.Map, depth int) (string, bool) {
+	key := fmt.Sprintf("%s@%d", types.TypeString(t, nil), ref)
+	if v, ok := rp.objs[key]; ok {
+		return v, true
+	}
+	v := rp.newVar()
+	rp.objs[key] = v
+	rp.decls = append(rp.decls, fmt.Sprintf("%s := %s{}", v, rp.typeStr(t)))
+	id := typeKey(mt.Key()) + "|" + typeKey(mt.Elem())
+	dom, okD := rp.entryHeap("MD|" + id)
+	val, okV := rp.entryHeap("MV|" + id)
+	if !okD {
+		return v, true
+	}
+	seen := map[string]bool{}
+	for _, kt := range rp.vc.mapKeys["MD|"+id] {
+		present, ok := rp.one(sel(sel(dom, num(ref)), kt))
+		if !ok || present != "true" {
+			continue
+		}
+		ke, ok := rp.goValue(kt, mt.Key(), depth+1)
+		if !ok {
+			return "", false
+		}
+		if seen[ke] {
+			continue
+		}
+		seen[ke] = true
+		ve := rp.zeroExpr(mt.Elem())
+		if okV {
+			ve, ok = rp.goValue(sel(sel(val, num(ref)), kt), mt.Elem(), depth+1)
+			if !ok {
+				return "", false
+			}
+		}
+		rp.inits = append(rp.inits, fmt.Sprintf("%s[%s] = %s", v, ke, ve))
+	}
+	return v, true
+}
+
+
+// buildLemma: inputs are the lemma's forall variables; the let-steps become real calls.
+func (rp *replayer) buildLemma() (string, string) {
+	lm := rp.vc.lemma
+	if rp.o.Kind != "lemma" {
+		rp.fail = "no oracle for obligation kind " + rp.o.Kind
+		return "", ""
+	}
+	varTerm := map[string]Term{}
+	for _, d := range rp.vc.decls {
+		if strings.HasPrefix(d, "(declare-const lemma.") {
+			f := strings.Fields(d)
+			base := strings.TrimPrefix(f[1], "lemma.")
+			if i := strings.LastIndex(base, "!"); i >= 0 {
+				base = base[:i]
+			}
+			if _, dup := varTerm[base]; !dup {
+				varTerm[base] = f[1]
+			}
+		}
+	}
+	sp := rp.vc.eng.spkgs[lm.PkgPath]
+	n := 0
+	env := &SpecEnv{fr: &Frame{vc: rp.vc}, pkg: sp, vars: map[string]*Val{}, nq: &n}
+	var body []string
+	g := &goCompiler{rp: rp, fn: rp.vc.fn}
+	var idx, want int
+	fmt.Sscanf(rp.o.Name[strings.LastIndex(rp.o.Name, "/post#")+1:], "post#%d", &want)
+	post := ""
+	for _, st := range lm.Steps {
+		switch st.Kind {
+		case "forall":
+			te, err := parserParseExpr(st.Text)
+			if err != nil {
+				return "", ""
+			}
+			t, err := env.resolveType(te)
+			if err != nil || t == nil {
+				rp.fail = "cannot resolve lemma variable type"
+				return "", ""
+			}
+			e, ok := rp.goValue(varTerm[sanitize(st.Names[0])], t, 0)
+			if !ok {
+				return "", ""
+			}
+			body = append(body, fmt.Sprintf("var %s %s = %s\n\t_ = %s", st.Names[0], rp.typeStr(t), e, st.Names[0]))
+		case "let":
+			g.allowCalls = true
+			s, err := g.compile(st.Expr, false)
+			g.allowCalls = false
+			if err != nil {
+				rp.fail = err.Error()
+				return "", ""
+			}
+			body = append(body, strings.Join(st.Names, ", ")+" := "+s)
+			for _, nme := range st.Names {
+				if nme != "_" {
+					body = append(body, "_ = "+nme)
+				}
+			}
+		case "ensures":
+			idx++
+			if idx == want {
+				s, err := g.compile(st.Clause.Expr, false)
+				if err != nil {
+					rp.fail = "lemma conclusion not executable: " + err.Error()
+					return "", ""
+				}
+				post = s
+			}
+		}
+	}
+	if post == "" {
+		rp.fail = "lemma conclusion not found"
+		return "", ""
+	}
+	var b strings.Builder
+	fmt.Fprintf(&b, "// Code generated by govc (replay of a verifier counterexample). DO NOT EDIT.\n// package-path: %s\n// obligation: %s\n", rp.pkg.Path(), rp.o.Name)
+	fmt.Fprintf(&b, "package %s\n\nimport (\n\t\"fmt\"\n\t\"testing\"\n", rp.pkg.Name())
+	var ips []string
+	for p := range rp.imports {
+		ips = append(ips, p)
+	}
+	sort.Strings(ips)
+	for _, p := range ips {
+		fmt.Fprintf(&b, "\t%s %q\n", rp.imports[p], p)
+	}
+	b.WriteString(")\n\nfunc govcIte[T any](c bool, a, b T) T {\n\tif c {\n\t\treturn a\n\t}\n\treturn b\n}\n\nfunc TestGovcReplay(_ *testing.T) {\n")
+	b.WriteString("\tdefer func() {\n\t\tif r := recover(); r != nil {\n\t\t\tfmt.Println(\"REPLAY-PANIC:\", r)\n\t\t}\n\t}()\n")
+	for _, l := range body {
+		b.WriteString("\t" + l + "\n")
+	}
+	fmt.Fprintf(&b, "\tfmt.Println(\"REPLAY-POST:\", %s)\n}\n", post)
+	return b.String(), "post"
 }
